@@ -70,6 +70,12 @@ catalogue! {
     struct Ticket2 { title: String, #[serde(flatten)] owner: Option<Owner> }
 
     struct S10 { o1: Option<String>, #[serde(default, skip_serializing_if = "Option::is_none")] o2: Option<Inner>, v: Vec<i32> }
+
+    #[serde(transparent)]
+    struct Tr1 { inner: u32 }
+
+    #[serde(transparent)]
+    struct Tr2 { #[serde(skip)] unit: (), value: Inner }
 }
 
 catalogue_enums! {
@@ -159,6 +165,8 @@ fn all() -> Vec<Value> {
     out.push(entry("Ticket", s(nx()), vec![Ticket { title: "t".into(), owner: Owner { name: "n".into(), id: 1, nick: Some("k".into()) } }]));
     out.push(entry("Ticket2", s(nx()), vec![Ticket2 { title: "t".into(), owner: Some(Owner { name: "n".into(), id: 1, nick: Some("k".into()) }) }, Ticket2 { title: "t".into(), owner: None }]));
     out.push(entry("S10", s(nx()), vec![S10 { o1: Some("s".into()), o2: Some(inner()), v: vec![1, 2] }, S10::default()]));
+    out.push(entry("Tr1", s(nx()), vec![Tr1 { inner: 5 }]));
+    out.push(entry("Tr2", s(nx()), vec![Tr2 { unit: (), value: inner() }]));
     let mut j = 0usize;
     let mut ne = || { j += 1; j - 1 };
     out.push(entry("U1", e(ne()), vec![U1::FooBar, U1::BazQux, U1::Renamed]));
